@@ -23,6 +23,8 @@ func checkC18(c *chk.Ctx) {
 		"R18b a shard's hash range is only written when the shard is created (or cloned)",
 		"R18c producers map Min->MinHashInclusive and Max->MaxHashInclusive, the client maps them to MinInclusive/MaxInclusive, and both client predicates (membership, overlap) agree with the inclusive-range truth table for every ordering of their operands; every non-deleting shard is published",
 		"R18d the only routing hash is the client strategy's xxhash3-32, and both producers advertise that router",
+		"R18k every request message with a shard field that the client builds has that field set from a computed shard id (an unset field silently addresses shard 0)",
+		"R18j the client routes by the partition key whenever one is given: the partition key's content only flows into the routing hash and the requests, no branch of the client tests what the partition key looks like (only whether it is present)",
 		"R18i when the client learns a new shard it evicts every known shard that overlaps it: the scan over the known shards is only left when it is exhausted",
 		"R18h a compare-and-set of the cluster status writes a status computed from the snapshot whose version it presents (shared with C05): the id generator is never rolled back by a stale copy",
 		"R18g a cluster status built from an existing one (a literal that copies any field of another status) also copies its shard id generator: no derived status restarts the ids at zero",
@@ -40,6 +42,8 @@ func checkC18(c *chk.Ctx) {
 	ruleR18g(h)
 	ruleStatusSwapFresh(h, "R18h")
 	ruleR18i(h)
+	ruleR18j(h)
+	ruleClientRequestsCarryShard(h, "R18k")
 }
 
 func ruleR18a(h *H) {
@@ -738,5 +742,213 @@ func ruleR18i(h *H) {
 	}
 	if n == 0 {
 		h.Anchor(rule, "delete of an overlapping shard from the client's shard map inside a loop")
+	}
+}
+
+// ruleR18j: single-key operations and the single-shard forms of list / range-scan /
+// delete-range must agree on the shard of a partition key. They agree because each of them
+// asks one question only — is a partition key given? — and, if so, hashes it. A branch on
+// the partition key's content anywhere in the client (empty, prefix, length …) makes some
+// operations fall back to the record key or to all shards while others still route by the
+// partition key: records written with that partition key are then scattered.
+func ruleR18j(h *H) {
+	const rule = "R18j"
+	h.Rule(rule, "K2", "the dereferenced partition key (the *string whose content is handed to ShardManager.Get) is never an operand of a comparison or of len() in the client", 1)
+	get := ir.Callee{Pkg: "oxia/internal", Recv: "ShardManager", Name: "Get"}
+	type origin struct {
+		method string       // invoke of an interface method returning *string
+		st     *types.Named // or load of a *string field
+		field  string
+	}
+	originOf := func(p ssa.Value) (origin, bool) {
+		switch x := ir.Canon(p).(type) {
+		case *ssa.Call:
+			if x.Call.IsInvoke() {
+				return origin{method: x.Call.Method.Name()}, true
+			}
+			if f := x.Call.StaticCallee(); f != nil && ir.InRepo(f) {
+				return origin{method: f.Name()}, true
+			}
+		default:
+			if r, ok := ir.FieldLoadOf(ir.Canon(p)); ok && r.Struct != nil {
+				return origin{st: r.Struct, field: r.Field}, true
+			}
+		}
+		return origin{}, false
+	}
+	isStrPtr := func(t types.Type) bool {
+		pt, ok := t.Underlying().(*types.Pointer)
+		if !ok {
+			return false
+		}
+		b, ok := pt.Elem().Underlying().(*types.Basic)
+		return ok && b.Kind() == types.String
+	}
+	inClient := func(fn *ssa.Function) bool { return ir.RelPkg(ir.PkgPathOf(fn)) == "oxia" }
+	// (1) discover the partition-key pointers from the routing calls
+	origins := map[origin]bool{}
+	for _, cs := range h.P.AllCalls(inClient, get) {
+		args := cs.Call.Common().Args
+		if len(args) == 0 {
+			continue
+		}
+		if u, ok := ir.Canon(args[len(args)-1]).(*ssa.UnOp); ok && u.Op == token.MUL && isStrPtr(u.X.Type()) {
+			if o, ok := originOf(u.X); ok {
+				origins[o] = true
+			}
+		}
+	}
+	if len(origins) == 0 {
+		h.Anchor(rule, "a call ShardManager.Get(*<partition key>) in package oxia")
+		return
+	}
+	// option structs hand the same pointer out through a field and through an accessor:
+	// fields of type *string that such an accessor returns belong to the role too
+	for _, fn := range h.P.Funcs {
+		if !inClient(fn) || fn.Signature.Recv() == nil || !origins[origin{method: fn.Name()}] || fn.Blocks == nil {
+			continue
+		}
+		ir.Instrs(fn, func(in ssa.Instruction) {
+			if ret, ok := in.(*ssa.Return); ok && len(ret.Results) == 1 {
+				if r, isF := ir.FieldLoadOf(ir.Canon(ret.Results[0])); isF && r.Struct != nil {
+					origins[origin{st: r.Struct, field: r.Field}] = true
+				}
+			}
+		})
+	}
+	// (2) every dereference of such a pointer: its uses
+	n := 0
+	for _, fn := range h.P.Funcs {
+		if !inClient(fn) || fn.Blocks == nil {
+			continue
+		}
+		fn := fn
+		ir.Instrs(fn, func(in ssa.Instruction) {
+			u, ok := in.(*ssa.UnOp)
+			if !ok || u.Op != token.MUL || !isStrPtr(u.X.Type()) {
+				return
+			}
+			o, ok := originOf(u.X)
+			if !ok {
+				return
+			}
+			if !origins[o] {
+				// embedded option structs: same field name on another struct of the package counts
+				match := false
+				for k := range origins {
+					if k.st != nil && o.st != nil && k.field == o.field {
+						match = true
+					}
+				}
+				if !match {
+					return
+				}
+			}
+			n++
+			h.Fn(ir.FuncName(fn))
+			bad := ""
+			for _, use := range valueUses(u) {
+				switch x := use.(type) {
+				case *ssa.BinOp:
+					switch x.Op {
+					case token.EQL, token.NEQ, token.LSS, token.LEQ, token.GTR, token.GEQ:
+						bad = "compared (" + x.Op.String() + ") at " + h.pos(x)
+					}
+				case *ssa.Call:
+					if b, isB := x.Call.Value.(*ssa.Builtin); isB && b.Name() == "len" {
+						bad = "measured with len() at " + h.pos(x)
+					}
+					if f := x.Call.StaticCallee(); f != nil && f.Pkg != nil && f.Pkg.Pkg.Path() == "strings" {
+						bad = "inspected with strings." + f.Name() + " at " + h.pos(x)
+					}
+				}
+			}
+			h.Verdict(bad == "", rule, fmt.Sprintf("partition key content #%d in %s", n, ir.FuncName(fn)), h.pos(in), "only hashed / forwarded", "the content of the partition key is "+bad+": operations that take this branch route differently from the ones that only test whether a partition key is given, so one partition key no longer maps to one shard")
+		})
+	}
+	if n == 0 {
+		h.Anchor(rule, "dereferences of the partition key in package oxia")
+	}
+}
+
+// ruleClientRequestsCarryShard: client and server agree on the shard of a request only if
+// the request says which shard it is for. The `shard` fields of the public protocol are
+// plain or optional int64s: a request built without it is not rejected, it is served by
+// shard 0 (or refused by a node that does not lead shard 0).
+func ruleClientRequestsCarryShard(h *H, rule string) {
+	h.Rule(rule, "K3", "every construction of a protocol message with a Shard field in the client packages stores a non-constant shard id into it", 6)
+	n := 0
+	for _, fn := range h.P.Funcs {
+		if pkg := ir.RelPkg(ir.PkgPathOf(fn)); pkg != "oxia" && !strings.HasPrefix(pkg, "oxia/") {
+			continue
+		}
+		if fn.Blocks == nil {
+			continue
+		}
+		fn := fn
+		ir.Instrs(fn, func(in ssa.Instruction) {
+			al, ok := in.(*ssa.Alloc)
+			if !ok {
+				return
+			}
+			pt, _ := al.Type().Underlying().(*types.Pointer)
+			if pt == nil {
+				return
+			}
+			named, _ := types.Unalias(pt.Elem()).(*types.Named)
+			if named == nil || named.Obj().Pkg() == nil || ir.RelPkg(named.Obj().Pkg().Path()) != "proto" {
+				return
+			}
+			st, _ := named.Underlying().(*types.Struct)
+			has := false
+			for i := 0; st != nil && i < st.NumFields(); i++ {
+				if st.Field(i).Name() == "Shard" {
+					has = true
+				}
+			}
+			if !has {
+				return
+			}
+			// only messages that are built here (some field is stored), not decode targets
+			built, shardSet, constant := false, false, false
+			if rs := al.Referrers(); rs != nil {
+				for _, r := range *rs {
+					fa, isFA := r.(*ssa.FieldAddr)
+					if !isFA || fa.Referrers() == nil {
+						continue
+					}
+					for _, u := range *fa.Referrers() {
+						sto, isSt := u.(*ssa.Store)
+						if !isSt || sto.Addr != fa {
+							continue
+						}
+						built = true
+						if ref, _ := ir.FieldAddrOf(fa); ref.Field == "Shard" {
+							shardSet = true
+							if _, isC := ir.Canon(sto.Val).(*ssa.Const); isC {
+								constant = true
+							}
+						}
+					}
+				}
+			}
+			if !built {
+				return
+			}
+			n++
+			h.Fn(ir.FuncName(fn))
+			name := fmt.Sprintf("%s built in %s", named.Obj().Name(), ir.FuncName(fn))
+			switch {
+			case !shardSet:
+				h.Bad(rule, name, h.pos(in), "the request is built without its shard field: the server serves it from shard 0, whatever shard the client resolved for the key or partition key")
+			case constant:
+				h.Bad(rule, name, h.pos(in), "the shard field of the request is a constant")
+			default:
+				h.OK(rule, name, h.pos(in), "shard field set")
+			}
+		})
+	}
+	if n == 0 {
+		h.Anchor(rule, "constructions of protocol requests with a Shard field in the client")
 	}
 }
